@@ -1012,6 +1012,20 @@ class CallGraph:
             return None
         if not isinstance(expr, (ast.Dict, ast.List, ast.Tuple, ast.Set)):
             return None
+        # every entry that could be called must be understood: a lambda / partial / external callable in the table
+        # would be a callee whose effect is simply missing from the join
+        values = list(expr.values) if isinstance(expr, ast.Dict) else list(expr.elts)
+        for v in values:
+            for n in ast.walk(v):
+                if isinstance(n, ast.Lambda):
+                    return None
+                if isinstance(n, ast.Call) and ast.unparse(n.func) not in ("methodcaller", "operator.methodcaller"):
+                    return None
+                if isinstance(n, ast.Name) and isinstance(n.ctx, ast.Load):
+                    rr = mod.resolve_name(n.id)
+                    if rr is None and not (cls is not None and n.id in cls.methods):
+                        if n.id in _BUILTINS or n.id in mod.imports:
+                            return None   # a builtin / foreign callable (or value) we know nothing about
         out = []
         for n in ast.walk(expr):
             if isinstance(n, ast.Name):
@@ -2608,6 +2622,125 @@ class StreamAnalysis:
         t = self.cg.type_of(recv, f)
         return not isinstance(t, Cls)
 
+    _BYTES_MARKS = ("BinaryIO", "BytesIO", "BufferedReader", "BufferedIOBase", "RawIOBase", "IO[bytes]", "BufferedRandom")
+    _STR_MARKS = ("TextIO", "StringIO", "TextIOWrapper", "IO[str]")
+
+    def read_kind(self, e, f: Func, depth=0):
+        """type of what `<e>.read(..)` returns, as far as the code establishes it: 'bytes' | 'str' | None.
+        Evidence: annotation of a parameter, the constructor a local / attribute was bound to (io.BytesIO, open(.., 'rb')),
+        what the call sites pass for an un-annotated parameter, a struct unpack of a read on the same stream."""
+        if depth > 4 or e is None:
+            return None
+        cache = self.__dict__.setdefault("_kind_cache", {})
+        txt = dotted(e) if isinstance(e, (ast.Name, ast.Attribute)) else None
+        ck = (id(f.node), txt)
+        if txt is not None and ck in cache:
+            return cache[ck]
+        if txt is not None:
+            cache[ck] = None
+        r = self._read_kind(e, f, depth)
+        if txt is not None:
+            cache[ck] = r
+        return r
+
+    def _kind_of_ctor(self, v, f, depth):
+        """kind of the stream object produced by expression v"""
+        if isinstance(v, ast.Call):
+            name = ast.unparse(v.func)
+            last = name.split(".")[-1]
+            if last in ("BytesIO", "BufferedReader", "BufferedRandom", "FileIO"):
+                return "bytes"
+            if last in ("StringIO", "TextIOWrapper"):
+                return "str"
+            if last == "open" and (name == "open" or name.endswith(".open")):
+                mode = None
+                if len(v.args) >= 2:
+                    mode = self.b.fold(v.args[1], f)
+                for kw in v.keywords:
+                    if kw.arg == "mode":
+                        mode = self.b.fold(kw.value, f)
+                if mode is None and len(v.args) < 2 and not any(kw.arg == "mode" for kw in v.keywords) and name == "open":
+                    return "str"
+                if isinstance(mode, str):
+                    return "bytes" if "b" in mode else "str"
+                return None
+            return None
+        if isinstance(v, (ast.Name, ast.Attribute)):
+            return self.read_kind(v, f, depth + 1)
+        return None
+
+    @classmethod
+    def _kind_of_annotation(cls, ann):
+        if ann is None:
+            return None
+        t = ast.unparse(ann) if not (isinstance(ann, ast.Constant) and isinstance(ann.value, str)) else ann.value
+        if any(m in t for m in cls._BYTES_MARKS):
+            return "bytes"
+        if any(m in t for m in cls._STR_MARKS):
+            return "str"
+        return None
+
+    def _read_kind(self, e, f: Func, depth):
+        cg = self.cg
+        kinds = []
+        if isinstance(e, ast.Name):
+            for p in cg._params_of(f):
+                if p.arg == e.id:
+                    k = self._kind_of_annotation(p.annotation)
+                    if k:
+                        return k
+                    # what do the callers pass?
+                    name = f.cls.name if (f.name == "__init__" and f.cls is not None and id(f.node) not in cg.outer) else f.name
+                    ps = [q.arg for q in cg._params_of(f)]
+                    idx = ps.index(e.id)
+                    for g, call in cg.callsites_of(name)[:40]:
+                        ts, kind = cg.resolve_call(call, g)
+                        if not any(t.node is f.node for t in ts):
+                            continue
+                        off = 1 if (cg.is_method(f) and (kind == "ctor" or isinstance(call.func, ast.Attribute))) else 0
+                        arg = call.args[idx - off] if 0 <= idx - off < len(call.args) else None
+                        for kw in call.keywords:
+                            if kw.arg == e.id:
+                                arg = kw.value
+                        if arg is not None:
+                            kinds.append(self._kind_of_ctor(arg, g, depth + 1))
+            for rhs in cg._assignments_to_name(f, e.id):
+                if isinstance(rhs, ast.AST):
+                    kinds.append(self._kind_of_ctor(rhs, f, depth + 1))
+                elif rhs is not None:
+                    kinds.append(None)
+            for n in own_nodes(f.node):
+                if isinstance(n, ast.withitem) and isinstance(n.optional_vars, ast.Name) and n.optional_vars.id == e.id:
+                    kinds.append(self._kind_of_ctor(n.context_expr, f, depth + 1))
+        elif isinstance(e, ast.Attribute):
+            t = cg.type_of(e.value, f)
+            if isinstance(t, Cls):
+                for m, stmt, tgt, val, slot in self.b._stores(t, e.attr):
+                    if val is not None and slot is None:
+                        kinds.append(self._kind_of_ctor(val, m, depth + 1))
+        # a struct unpack of a read on the same stream only works on bytes
+        key = self.key_of(e, f) if isinstance(e, (ast.Name, ast.Attribute)) else None
+        if key is not None:
+            for n in own_nodes(f.node):
+                if isinstance(n, ast.Call) and CallGraph._is_unpack_call(n) and n.args:
+                    rd = self._as_read(n.args[-1], f)
+                    if rd is not None and rd[0] == key and rd[2] is not None:
+                        kinds.append("bytes")
+        known = [k for k in kinds if k]
+        if known and all(k == known[0] for k in known):
+            return known[0]
+        return None
+
+    def empty_literal_matches(self, const, stream_expr, f: Func):
+        """does `<stream>.read()` at end of input EQUAL this empty literal?  True / False (established type differs:
+        b'' != '' in Python 3) / None (type of the stream not established)"""
+        if not (isinstance(const, ast.Constant) and const.value in (b"", "")):
+            return None
+        k = self.read_kind(stream_expr, f)
+        if k is None:
+            return None
+        return (k == "bytes") == isinstance(const.value, bytes)
+
     def is_fresh_local(self, key, f: Func):
         self.aliases(f)
         return key in self._fresh.get(id(f.node), set())
@@ -3167,7 +3300,8 @@ class _Run:
                     res = (False, c)
                 elif isinstance(op, ast.Gt):
                     res = (False, c + 1)
-            elif isz(l) and empty_const(r):
+            elif isz(l) and empty_const(r) and self.sa.empty_literal_matches(r, rd[2].func.value, self.f) is True:
+                # only when the literal has the type that read() returns: b'' != '' never ends anything
                 if isinstance(op, ast.Eq):
                     res = (True, 1)
                 elif isinstance(op, ast.NotEq):
@@ -3228,6 +3362,14 @@ class _Run:
             return True
         if isinstance(p, (ast.Return, ast.Yield)):
             return True
+        if isinstance(p, ast.Lambda) and p.body is node:
+            # iter(lambda: S.read(n), SENTINEL): the value becomes the loop variable
+            pp = parent(p)
+            ppp = parent(pp) if pp is not None else None
+            if isinstance(pp, ast.Call) and isinstance(pp.func, ast.Name) and pp.func.id == "iter" and pp.args and pp.args[0] is p \
+                    and isinstance(ppp, (ast.For, ast.comprehension)) and ppp.iter is pp and isinstance(ppp.target, ast.Name):
+                return self._name_uses_inert(ppp.target.id, self.f, depth + 1)
+            return False
         if isinstance(p, (ast.Tuple, ast.List, ast.Set, ast.Dict, ast.Starred, ast.FormattedValue, ast.JoinedStr, ast.keyword)) and not isinstance(p, ast.keyword):
             return self._inert_use(p, depth + 1)
         if isinstance(p, (ast.ListComp, ast.SetComp, ast.GeneratorExp, ast.DictComp)):
@@ -3688,18 +3830,30 @@ class _Run:
         if not (isinstance(sent, ast.Constant) and sent.value in (b"", "")):
             return None
         src = it.args[0]
+        # iter(callable, SENTINEL) stops when callable() == SENTINEL: the empty literal must have the type read() returns
         if isinstance(src, ast.Lambda) and not src.args.args:
             rd = self.sa._as_read(src.body, self.f)
-            if rd is not None and rd[2] is src.body:
+            if rd is not None and rd[2] is src.body and self.sa.empty_literal_matches(sent, src.body.func.value, self.f) is True:
                 n = self.b.eval(rd[1], self.f)
                 return (rd[0], src.body, n if n[0] >= 0 else (0, INF))
         if isinstance(src, ast.Call) and ast.unparse(src.func) in ("partial", "functools.partial") and len(src.args) == 2 \
-                and isinstance(src.args[0], ast.Attribute) and src.args[0].attr == "read" and self.sa.is_stream_recv(src.args[0].value, self.f):
+                and isinstance(src.args[0], ast.Attribute) and src.args[0].attr == "read" and self.sa.is_stream_recv(src.args[0].value, self.f) \
+                and self.sa.empty_literal_matches(sent, src.args[0].value, self.f) is True:
             key = self.sa.key_of(src.args[0].value, self.f)
             n = self.b.eval(src.args[1], self.f)
             if key is not None:
                 return (key, None, n if n[0] >= 0 else (0, INF))
         return None
+
+    def sentinel_never_matches(self, it):
+        """`iter(lambda: S.read(n), <empty literal of the WRONG type>)`: established that the iteration cannot end at EOF"""
+        if not (isinstance(it, ast.Call) and isinstance(it.func, ast.Name) and it.func.id == "iter" and len(it.args) == 2):
+            return False
+        src, sent = it.args
+        if isinstance(src, ast.Lambda) and not src.args.args:
+            rd = self.sa._as_read(src.body, self.f)
+            return rd is not None and rd[2] is src.body and self.sa.empty_literal_matches(sent, src.body.func.value, self.f) is False
+        return False
 
     def _chunk_generator(self, call):
         """call of a repository generator of the shape
@@ -3727,7 +3881,7 @@ class _Run:
         t = c.test
         empty = (isinstance(t, ast.UnaryOp) and isinstance(t.op, ast.Not) and isinstance(t.operand, ast.Name) and t.operand.id == z) or \
                 (isinstance(t, ast.Compare) and len(t.ops) == 1 and isinstance(t.ops[0], ast.Eq) and isinstance(t.left, ast.Name) and t.left.id == z
-                 and isinstance(t.comparators[0], ast.Constant) and t.comparators[0].value in (b"", "")) or \
+                 and self.sa.empty_literal_matches(t.comparators[0], a.value.func.value, g) is True) or \
                 (isinstance(t, ast.Compare) and len(t.ops) == 1 and isinstance(t.ops[0], ast.Eq) and isinstance(t.left, ast.Call)
                  and ast.unparse(t.left) == "len(%s)" % z and isinstance(t.comparators[0], ast.Constant) and t.comparators[0].value == 0)
         if not empty:
@@ -3872,7 +4026,9 @@ class _Run:
                 name = c.args[0].id
             elif isinstance(c, ast.Compare) and len(c.ops) == 1 and isinstance(c.left, ast.Name) and isinstance(c.ops[0], ast.NotEq) \
                     and isinstance(c.comparators[0], ast.Constant) and c.comparators[0].value in (b"", ""):
-                name = c.left.id
+                rp0 = back.saved.get("@read:" + c.left.id)
+                if rp0 is not None and self.sa.empty_literal_matches(c.comparators[0], ast.parse(rp0[0], mode="eval").body, self.f) is True:
+                    name = c.left.id
             elif isinstance(c, ast.Compare) and len(c.ops) == 1 and isinstance(c.ops[0], (ast.Gt, ast.GtE)) and isinstance(c.left, ast.Call) \
                     and isinstance(c.left.func, ast.Name) and c.left.func.id == "len" and len(c.left.args) == 1 and isinstance(c.left.args[0], ast.Name) \
                     and isinstance(c.comparators[0], ast.Constant) and c.comparators[0].value == (0 if isinstance(c.ops[0], ast.Gt) else 1):
@@ -3895,7 +4051,11 @@ class _Run:
         t = test
         if isinstance(t, ast.Compare) and len(t.ops) == 1 and isinstance(t.ops[0], ast.NotEq) and isinstance(t.comparators[0], ast.Constant) \
                 and t.comparators[0].value in (b"", ""):
-            t = t.left
+            inner = t.left
+            if not (isinstance(inner, ast.NamedExpr) and isinstance(inner.value, ast.Call) and isinstance(inner.value.func, ast.Attribute)
+                    and self.sa.empty_literal_matches(t.comparators[0], inner.value.func.value, self.f) is True):
+                return None   # `!= ''` on a bytes stream is always true: it says nothing about the read
+            t = inner
         if isinstance(t, ast.Call) and isinstance(t.func, ast.Name) and t.func.id == "len" and len(t.args) == 1:
             t = t.args[0]
         if isinstance(t, ast.NamedExpr) and isinstance(t.target, ast.Name):
